@@ -8,3 +8,4 @@ def run(ctx):
     sorter(ctx, want_order=False, want_topn=True)
     from ..scen_go import go_chain
     go_chain(ctx, want=('go.capacity',))
+    go_chain(ctx, want=('go.complete',))
